@@ -15,6 +15,7 @@ import (
 	"strconv"
 	"strings"
 	"sync"
+	"time"
 )
 
 // Event is one Read seen at the crypto/rand boundary.
@@ -78,6 +79,14 @@ func (w *Recorder) Read(p []byte) (int, error) {
 	var n int
 	var err error
 	switch {
+	case w.mode == "gc" && len(p) > 5:
+		// a slow, fragmenting source: before every fragment a garbage collection (with
+		// finalizers) completes
+		runtime.GC()
+		time.Sleep(time.Millisecond)
+		runtime.GC()
+		runtime.Gosched()
+		n, err = w.r.Read(p[:1+k%5])
 	case w.mode == "short" && len(p) > 5:
 		n, err = w.r.Read(p[:1+k%5]) // a legal short read
 	case w.mode == "zeros" && k%w.at == 0:
